@@ -50,6 +50,13 @@ def run(res, tier, seed, broken):
     if err:
         broken = broken + [{"obligation": "implementation side failed to run", "log": err[-3000:]}]
 
+    # every configuration of the rule table on read-only arguments, each VJP / JVP function called twice
+    from harness import rules
+    ob, e2 = rules.run_oracle(res, ["C10"], tier, seed)
+    if e2:
+        broken = broken + [{"obligation": "rule-table pass (read-only arguments, repeated calls) failed to run", "log": e2[-3000:]}]
+    bad = bad + [b for b in ob if b["property"] == "C10"]
+
     def hunt():
         for k in range(4 if big else 2):
             b, _, _ = explore(res, "c10_hunt%d" % k, seed + 81 + k, 1500, 90)
